@@ -946,6 +946,9 @@ func runC15(a vh.Args, o *vh.Oracle, r *vh.Result) error {
 		if c.Level == "cli" {
 			return c15ReplayCLI(a, o, r, &c)
 		}
+		if c.Level == "handler-overlap" {
+			return c15OverlapPuts(a, o, r, rng)
+		}
 		e, err := c15StartHandler(filepath.Join(a.Work, "replay"), c.Cfg, c15MakeState(c.StateSeed))
 		if err != nil {
 			return err
@@ -984,6 +987,10 @@ func runC15(a vh.Args, o *vh.Oracle, r *vh.Result) error {
 		if err != nil {
 			return err
 		}
+	}
+	// uploads that overlap in time
+	if err := c15OverlapPuts(a, o, r, rng.Fork()); err != nil {
+		return err
 	}
 	// the flag / environment plumbing of the binaries (both tiers)
 	if err := c15Plumbing(a, o, r, rng); err != nil {
